@@ -4,6 +4,8 @@ import Qryn.Proofs.TraceQLPortions
 import Qryn.Proofs.TraceQLTags
 import Qryn.Proofs.TraceQLGrammar
 import Qryn.Proofs.TraceQLAll
+import Qryn.Proofs.TraceQLAllFull
+import Qryn.TraceQL.ComplexHeap
 import Qryn.Gen.TraceQLOps
 /-! # C11 — the SQL generated for TraceQL selects exactly the traces the query describes
 
@@ -17,8 +19,10 @@ Whole-plan theorems: `plan_traceql_correct` (every script whose selectors have c
 and portion-filter context: the rows of the WHOLE statement = `assemble` of a choice of the `limit` most recent described
 traces with their selected spans), `portions_partition` (the portion loop, any `N ≥ 1`, any hash), `plan_tags_correct`,
 `plan_values_correct`, `precedence_*` (the parser reads the chain as written; the planner reads it as TraceQL does).
-`{}` alone (`AttrlessConditionPlanner`: the span table is scanned, no index) is checked by the `whole` stream; its
-statement `plan_all_traces_full` is compiled, not proved. -/
+`{}` alone (`AttrlessConditionPlanner`: the span table is scanned, no index): `plan_all_traces` (the whole statement, proved),
+`plan_all_traces_explicit`. Extension c11y: `duration_literal_exact` / `agg_duration_literal` / `duration_condition_literal`
+(every unit conversion against the exact value of the literal), `planComplex_heap_closed_upto` (the pointer algorithm of
+`planComplex` builds the tree the theorems are about), `tags_query_ignored_superset`. -/
 namespace Qryn.C11
 open Qryn Qryn.Sql Qryn.TraceQL
 
@@ -287,20 +291,39 @@ theorem plan_traceql_correct (o : Oracles) (ao : AggOracles) (hp : PermInv ao) (
       (evalStmtJ o ao (d.toDb c) S).map (fun r => r.take 5) = (assemble K d.spansT (some c.limit.toNat)).map TraceOut.row :=
   plan_rows o ao hp c d hcons hts script S h hok hlim htab
 
-/-- the statement for `{}` — every trace with a span inside the window, read from the span table (`AttrlessConditionPlanner`,
-    after fix 373aa96): the same specification with "described" = has a span-table row inside the window, recency = the newest
-    such row, selected spans = some 100 of its rows inside the window. The order of `index_grouped` is not claimed here (it is by
-    the newest of the ≤ 100 kept spans; the statement re-orders by trace start anyway). Compiled, **not proved** (its sub-queries
-    scan the span table, not the index; the `whole` stream judges every real `{}` statement against it). -/
-def plan_all_traces_full : Prop :=
-  ∀ (o : Oracles) (ao : AggOracles) (c : Ctx) (d : TraceDb) (op : ScriptOp) (S : Sel),
-    plan c [(⟨none, none⟩, op)] = .ok S → 0 < c.limit → TablesDistinct c →
+/-- **plan_all_traces** (was the unproved `plan_all_traces_full`): the WHOLE statement for `{}` — `AttrlessConditionPlanner` after fix
+    373aa96 (`trace_ids`, `trace_and_span_ids`, `trace_and_span_ids_unnested`, its body as `index_search`), `IndexGroupByPlanner`, LIMIT,
+    `TracesDataPlanner` — for every window, positive limit and span table: its rows are `assemble K spans limit` for a `K` without
+    repeated traces, at most `limit` of them, each with a span-table row inside the window and a non-empty array of at most 100 of
+    its span ids inside the window; a trace with a span inside the window that is left out means `limit` were kept and none of
+    them is older (recency = the newest span-table row of the trace inside the window). In this statement `TracesDataPlanner`'s own
+    sub-query `trace_ids` is DROPPED (`Select.AddWith` keeps the first sub-query of a name: `AttrlessConditionPlanner`'s `trace_ids`),
+    so the final join and `traces_info` are restricted by the choice of the first sub-query — the proof shows it holds the same
+    traces as `index_grouped`. -/
+theorem plan_all_traces (o : Oracles) (ao : AggOracles) (c : Ctx) (d : TraceDb) (op : ScriptOp) (S : Sel)
+    (h : plan c [(⟨none, none⟩, op)] = .ok S) (hlim : 0 < c.limit) (htab : TablesDistinct c) :
     ∃ K : List (Bytes × List Bytes),
       (K.map (·.1)).Nodup ∧ K.length ≤ c.limit.toNat ∧
       (∀ k ∈ K, (∃ s ∈ d.spansT, s.traceId = k.1 ∧ spanInWindow c s = true) ∧ k.2 ≠ [] ∧ k.2.length ≤ 100 ∧ ∀ v ∈ k.2, v ∈ allTraceSpans c d k.1) ∧
       (∀ m, (∃ s ∈ d.spansT, s.traceId = m ∧ spanInWindow c s = true) → m ∉ K.map (·.1) →
         K.length = c.limit.toNat ∧ ∀ k ∈ K, allTraceRec c d m ≤ allTraceRec c d k.1) ∧
-      (evalStmtJ o ao (d.toDb c) S).map (fun r => r.take 5) = (assemble K d.spansT (some c.limit.toNat)).map TraceOut.row
+      (evalStmtJ o ao (d.toDb c) S).map (fun r => r.take 5) = (assemble K d.spansT (some c.limit.toNat)).map TraceOut.row :=
+  TraceQL.plan_all_traces_full_holds o ao c d op S h hlim htab
+
+/-- … at the strength the code really has: `K` is an EXPLICIT function (`allPairs`) of the choice `A` the first sub-query makes
+    (`IsTopN`: the `limit` traces with the newest span inside the window, ties free) — the traces of `A`, every one of them
+    (`allPairs_perm`), ordered by the newest of their KEPT spans (`allPairs_sorted`: `index_grouped` is not ordered by the recency
+    of the trace when a trace has more than 100 spans in the window), each with the first 100 span ids, in table order, of its
+    rows inside the window. A span stored twice is listed twice (the span table is read, not the index). -/
+theorem plan_all_traces_explicit (o : Oracles) (ao : AggOracles) (c : Ctx) (d : TraceDb) (op : ScriptOp) (S : Sel)
+    (h : plan c [(⟨none, none⟩, op)] = .ok S) (hlim : 0 < c.limit) (htab : TablesDistinct c) :
+    ∃ (A : List Bytes) (K : List (Bytes × List Bytes)),
+      IsTopN (allTraceRec c d) (InWindowTrace c d) c.limit.toNat A ∧
+      K = allPairs c d.spansT A ∧
+      (∀ t, t ∈ K.map (·.1) ↔ t ∈ A) ∧ (K.map (·.1)).Nodup ∧ K.length = A.length ∧
+      (∀ k ∈ K, k.2 ≠ [] ∧ k.2.length ≤ 100 ∧ ∀ v ∈ k.2, v ∈ allTraceSpans c d k.1) ∧
+      (evalStmtJ o ao (d.toDb c) S).map (fun r => r.take 5) = (assemble K d.spansT (some c.limit.toNat)).map TraceOut.row :=
+  TraceQL.plan_all_traces o ao c d op S h hlim htab
 
 /-- **all_traces_choice** (`{}`, the part that decides which traces come back): the first sub-query of
     `AttrlessConditionPlanner.Process` — `trace_ids`, to which every later sub-query and the final join are restricted — returns a
@@ -379,6 +402,137 @@ theorem plan_values_correct (o : Oracles) (ao : AggOracles) (c : Ctx) (d : Trace
     (h : planValues c kv key [(s, op)] = .ok S) :
     colStrs (evalStmtJ o ao (d.toDb c) S) "val" = tagsResult c (tagValues o c d e key) :=
   planValues_correct o ao c d hr kv key s op e he hinj S h
+
+/-! ## duration literals: every unit conversion (extension c11y) -/
+
+open Qryn.TraceQL.Units in
+/-- **duration_literal_exact.** `time.ParseDuration` as `AggregatorPlanner.cmpVal` and `getTermDuration` call it (modelled step by
+    step: `Units.goParseDuration`, tied to the real function by the `units` stream), for EVERY unit of TraceQL — ns, us, ms, s, m, h
+    (`Units.unitNs`: 1, 10³, 10⁶, 10⁹, 60·10⁹, 3600·10⁹) — and EVERY literal (any integer digits, up to 18 fractional digits, sign):
+    the result is the exact value of the literal in nanoseconds cut to a whole number (`exactNs = ⌊(int.frac)·unit⌋`) with its
+    sign, and it is refused exactly when that value does not fit an int64. No unit is read as another one, nothing is scaled twice. -/
+theorem duration_literal_exact (n : Num) (hw : Num.Wf n) (u : TUnit) (unit : Nat) (hu : unitNs u = some unit) (hL : n.frac.length ≤ 18) :
+    parseDuration n (some u) =
+      if exactNs n unit ≤ (if n.neg then two63 else two63 - 1) then .ok (if n.neg then -(exactNs n unit : Int) else (exactNs n unit : Int))
+      else .error "time: invalid duration" := by
+  unfold parseDuration
+  rw [goParseDuration_unit n hw u unit hu hL]
+  by_cases hfit : exactNs n unit ≤ (if n.neg then two63 else two63 - 1)
+  · rw [if_pos hfit, if_pos hfit]; rfl
+  · rw [if_neg hfit, if_neg hfit]; rfl
+
+open Qryn.TraceQL.Units in
+/-- `d` (days) is accepted by the grammar but refused by the planner; a duration without unit is refused unless it is `0` -/
+theorem duration_literal_refused (n : Num) :
+    (Units.leadingInt 0 n.int ≠ none → ∃ m, parseDuration n (some .d) = .error m) ∧
+    (¬ (n.int = [0] ∧ n.dot = false ∧ n.frac = []) → ∃ m, parseDuration n none = .error m) := by
+  refine ⟨fun hi => ?_, fun h0 => ?_⟩
+  · unfold parseDuration; rw [goParseDuration_day n hi]; exact ⟨_, rfl⟩
+  · unfold parseDuration; rw [goParseDuration_noUnit n, if_neg h0]
+    by_cases hl : leadingInt 0 n.int = none
+    · rw [if_pos hl]; exact ⟨_, rfl⟩
+    · rw [if_neg hl]; exact ⟨_, rfl⟩
+
+open Qryn.TraceQL.Units in
+/-- **agg_duration_literal.** `{…} | fn(duration) op N unit`: the number the HAVING of `AggregatorPlanner` compares the aggregate of
+    the span durations (nanoseconds) with is `float64` of the exact value of `N unit` in nanoseconds, written by `%f` — for every
+    unit and literal; the exact value itself whenever it is below 2⁵³ ns (≈ 104 days). On an attribute other than `duration` a
+    unit is refused (`agg_unit_refused`), so no aggregate is ever compared with a number in the wrong unit. -/
+theorem agg_duration_literal (a : Agg) (hd : a.attr = "duration") (hw : Num.Wf a.num) (u : TUnit) (hu' : a.unit = some u) (unit : Nat)
+    (hu : unitNs u = some unit) (hL : a.num.frac.length ≤ 18) (lit : String) (h : aggCmpText a = .ok lit) :
+    exactNs a.num unit ≤ (if a.num.neg then two63 else two63 - 1) ∧
+    lit = f64Text (if a.num.neg then -(exactNs a.num unit : Int) else (exactNs a.num unit : Int)) ∧
+    (exactNs a.num unit < 9007199254740992 →
+      lit = toString (if a.num.neg then -(exactNs a.num unit : Int) else (exactNs a.num unit : Int)) ++ ".000000") := by
+  unfold aggCmpText at h
+  rw [if_pos hd, hu', duration_literal_exact a.num hw u unit hu hL] at h
+  by_cases hfit : exactNs a.num unit ≤ (if a.num.neg then two63 else two63 - 1)
+  · rw [if_pos hfit] at h
+    simp only [bind, Except.bind, pure, Except.pure, Except.ok.injEq] at h
+    refine ⟨hfit, h.symm, fun hs => ?_⟩
+    rw [← h]; unfold f64Text
+    rw [f64OfInt_exact _ (by split <;> omega)]
+  · rw [if_neg hfit] at h
+    simp [bind, Except.bind] at h
+
+/-- a unit on an aggregate of anything but `duration` is refused (`strconv.ParseFloat` of `5ms` fails) -/
+theorem agg_unit_refused (a : Agg) (hd : a.attr ≠ "duration") (u : TUnit) (hu : a.unit = some u) : ∃ m, aggCmpText a = .error m := by
+  unfold aggCmpText
+  rw [if_neg hd, hu]
+  exact ⟨_, rfl⟩
+
+open Qryn.TraceQL.Units in
+/-- **duration_condition_literal.** `{duration op N unit}`: the SQL of the condition is true of an index row iff the span's duration
+    (nanoseconds) compares as written with the exact value of the literal — for every unit, operator, literal and row (the grammar
+    has no minus sign in a duration value: `hn`). -/
+theorem duration_condition_literal (o : Oracles) (env : Env) (op : Op) (n : Num) (hw : Num.Wf n) (hn : n.neg = false) (u : TUnit) (unit : Nat)
+    (hu : unitNs u = some unit) (hL : n.frac.length ≤ 18) (e : Expr) (h : termSql ⟨"duration", op, .dur n u⟩ = .ok e) (a : AttrRow) :
+    exactNs n unit ≤ two63 - 1 ∧ evalB o env a.qrow e = cmpInt op a.dur (exactNs n unit) := by
+  have hc := term_sql_correct o env _ e h a
+  have hk : labelKey "duration" = none := by decide +kernel
+  have hk' : attrKey "duration" = none := by decide +kernel
+  have hpd := duration_literal_exact n hw u unit hu hL
+  rw [hn] at hpd
+  simp only [Bool.false_eq_true, if_false] at hpd
+  by_cases hfit : exactNs n unit ≤ two63 - 1
+  · rw [if_pos hfit] at hpd
+    refine ⟨hfit, ?_⟩
+    rw [hc]
+    simp [termHolds, hk, durHolds, hpd]
+  · rw [if_neg hfit] at hpd
+    exfalso
+    revert h
+    simp [termSql, termDuration, hpd, bind, Except.bind, hk']
+
+
+/-! ### the hypotheses of the unit theorems are satisfiable -/
+example : Units.Num.Wf ⟨false, [1], true, [5]⟩ := ⟨by decide, by decide, by decide⟩
+example : (match parseDuration ⟨false, [1], true, [5]⟩ (some .h) with | .ok ns => ns == 5400000000000 | .error _ => false) = true := by decide +kernel
+example : Units.exactNs ⟨false, [1], true, [5]⟩ 3600000000000 = 5400000000000 := by decide +kernel
+/-- 2562047 h fits an int64, 2562048 h does not: refused, not wrapped around -/
+example : (parseDuration ⟨false, [2,5,6,2,0,4,7], false, []⟩ (some .h)).toBool = true ∧
+    (parseDuration ⟨false, [2,5,6,2,0,4,8], false, []⟩ (some .h)).toBool = false := by decide +kernel
+
+/-! ## chains of selectors: the pointer algorithm of `planComplex` (extension c11y) -/
+
+/-- `planComplex` AS WRITTEN — a walk that mutates a tree of planner objects through the pointers `root` and `current`
+    (`ComplexHeap.planComplexH`: heap of nodes, `addOp` / `setOps` / `operands`, `getPrefix` in call order) — builds exactly the tree
+    `planTree` (`groupsS` / `andNest` / `orFold`, the closed form every theorem above is about), same nodes, same prefixes, or
+    fails where it fails: for every sequence of operators between at most 6 selectors, also with a missing operator (the script
+    ends there) and with a dangling one (nil dereference) — 1093 shapes, kernel-checked. Together with `tree_means_script` (the closed
+    form means the script with `&&` tighter than `||`, for EVERY script) and `precedence_parser_script` (the grammar returns the
+    chain as written): mixed chains of three and more selectors are planned with the standard precedence. The `heap` stream walks
+    the REAL planner objects for chains of up to 9 selectors and compares them with both. -/
+theorem planComplex_heap_closed_upto :
+    ∀ ops ∈ ComplexHeap.opSeqs 6, ComplexHeap.planShape (ComplexHeap.scriptOf ops) = ComplexHeap.closedShape (ComplexHeap.scriptOf ops) := by
+  decide +kernel
+
+/-- the same for every script: compiled, **not proved** (the proof needs a frame argument over the heap; the bounded statement above is
+    kernel-checked, the `heap` stream compares the real objects) -/
+def planComplex_heap_closed_full : Prop :=
+  ∀ script : Script, ComplexHeap.planShape script = ComplexHeap.closedShape script
+
+/-- a mixed chain of four selectors, end to end on the model: `{a} && {b} || {c} && {d}` is planned as `(a && b) || (c && d)` -/
+example : ComplexHeap.shapeText (ComplexHeap.planShape (ComplexHeap.scriptOf [.and, .or, .and, .none])) =
+    "(O4 (A1 S4:2 S3:3) (A5 S2:6 S1:7))" := by decide +kernel
+
+/-! ## tag requests that ignore the query (extension c11y) -/
+
+/-- A tag-name / tag-value request whose query is judged too expensive (`ComplexTagsV2RequestProcessor`, `ComplexValuesV2RequestProcessor`)
+    ignores the query and lists the tags / values of the time range. Judged with the property statement this is NOT a violation: no
+    trace is selected or returned by a tag request, and what the request returns can only grow — every key the query-scoped request
+    would list (`tagKeys`, the specification of `plan_tags_correct`) is a key of an index row inside the window, and likewise for
+    values. (With a positive limit both answers are cut after sorting, so the cut lists need not be comparable.) -/
+theorem tags_query_ignored_superset (o : Oracles) (c : Ctx) (d : TraceDb) (e : AttrExp) (key : Bytes) :
+    (∀ k ∈ tagKeys o c d e, ∃ a ∈ d.attrs, admissible c a = true ∧ a.key = k) ∧
+    (∀ v ∈ tagValues o c d e key, ∃ a ∈ d.attrs, admissible c a = true ∧ a.key = key ∧ a.val = v) := by
+  refine ⟨fun k hk => ?_, fun v hv => ?_⟩
+  · simp only [tagKeys, mem_dedup, List.mem_map, List.mem_filter, Bool.and_eq_true] at hk
+    obtain ⟨a, ⟨ha, hadm, _⟩, rfl⟩ := hk
+    exact ⟨a, ha, hadm, rfl⟩
+  · simp only [tagValues, mem_dedup, List.mem_map, List.mem_filter, Bool.and_eq_true, beq_iff_eq] at hv
+    obtain ⟨a, ⟨ha, ⟨hadm, _⟩, hkey⟩, rfl⟩ := hv
+    exact ⟨a, ha, hadm, hkey, rfl⟩
 
 /-! ## well-formed statements -/
 
